@@ -9,5 +9,7 @@ pub mod inject;
 #[cfg(kani)]
 pub mod spec;
 #[cfg(kani)]
+pub mod pspec;
+#[cfg(kani)]
 pub mod stubs;
 pub mod util;
